@@ -40,6 +40,8 @@ Inductive pstep :=
 | StReuse (calls : list (nat * bool * pmsg))
     (* Client.SendProtobuf calls one after the other that REUSE ONE reply variable:
        (destination node, to the acknowledge-only endpoint MsgN?, request) *)
+| StAll (q : pmsg)
+    (* Client.SendToAll over the roster of all nodes *)
 | StCall (o : popts) (use_decoder want_ret : bool) (q : pmsg) (prio : list nat) (hold : option nat).
     (* SendProtobufParallel[WithDecoder] to all nodes; prio = the order in which the
        harness lets the nodes answer ([] = not controlled); hold = the node whose worker
@@ -47,6 +49,8 @@ Inductive pstep :=
        [done] and its close) until all other nodes have answered *)
 Inductive pstep_obs :=
 | OSend (replies : list reply)
+| OAll (slots : list (option reply)) (err : bool)
+    (* the returned slice, slot by slot (None = empty), and whether an error was returned *)
 | OReuse (seen : list reply)
     (* per call: the error, or what the reply variable holds after the call *)
 | OCall (res : option presult) (ret_first ret_final : option msg) (died : bool).
@@ -60,7 +64,10 @@ Inductive case :=
 | CMix (clients : list ckind) (rounds : list (list creq)) (obs : list (list reply))
        (streams : list (list sconv)) (sobss : list (list sobs))
     (* the same, and per round the streaming conversations that ran concurrently with it *)
-| CPar (nodes : list nbehav) (keep : bool) (steps : list pstep) (obs : list pstep_obs).
+| CPar (nodes : list nbehav) (keep : bool) (steps : list pstep) (obs : list pstep_obs)
+| CStore (keeps : list bool) (ops : list sop) (obs : list reply).
+    (* Put / Get on the storing endpoints, one after the other; keeps: per client, does it
+       keep its connection *)
 
 Definition agree_rounds (clients : list ckind) (rounds : list (list creq)) (obs : list (list reply)) : bool :=
   scenario_ok code_flags c14_world clients (ainit c14_world) rounds obs.
@@ -277,6 +284,14 @@ Definition reuse_spec (bs : list nbehav) (c : nat * bool * pmsg) : sreply :=
                      end
   end.
 
+(* SendToAll: what each server answers (None: the request to it fails) *)
+Definition all_outs (bs : list nbehav) (q : pmsg) : list (option reply) :=
+  map (fun i => match send_reply bs (i, q) with ROk t m => Some (ROk t m) | RErr _ _ => None end)
+      (seq 0 (List.length bs)).
+
+Definition oreply_eqb (a b : option reply) : bool :=
+  match a, b with Some x, Some y => reply_eqb x y | None, None => true | _, _ => false end.
+
 (* what the property demands of a single SendProtobuf to node i *)
 Definition send_spec (bs : list nbehav) (call : nat * pmsg) : sreply :=
   match node_out bs true (decode_q (snd call)) (fst call) with
@@ -298,6 +313,8 @@ Definition ores_eqb (a b : option presult) : bool :=
 Definition agree_pstep (bs : list nbehav) (st : pstep) (ob : pstep_obs) : bool :=
   match st, ob with
   | StSend calls, OSend rs => list_eqb agree_reply (map (send_reply bs) calls) rs
+  | StAll q, OAll slots err =>
+      let (ms, e) := send_to_all (all_outs bs q) in list_eqb oreply_eqb ms slots && Bool.eqb e err
   | StReuse calls, OReuse rs => list_eqb agree_reply (sendpb_seq false None (map (reuse_server bs) calls)) rs
   | StCall o use_decoder want_ret q prio hold, OCall res first final died =>
       let ids := seq 0 (List.length bs) in
@@ -324,6 +341,11 @@ Definition check_pstep (bs : list nbehav) (st : pstep) (ob : pstep_obs) : list n
   | StSend calls, OSend rs =>
       List.concat (zip_with (fun c o => if satisfies true (send_spec bs c) o then []
                                    else if not_answered o then [4] else [1]) [1] calls rs)
+  | StAll q, OAll slots err =>
+      (* clause 13: SendToAll: the result does not have one slot per server, or slot i is not
+         the reply of server i (empty where the request to server i failed) *)
+      clause 13 (list_eqb oreply_eqb (all_outs bs q) slots) ++
+      clause 13 (Bool.eqb (existsb is_none (all_outs bs q)) err)
   | StReuse calls, OReuse rs =>
       (* clause 11: after a SendProtobuf the caller's reply variable does not hold the decoding
          of THIS call's reply (content of an earlier reply is presented as this one's) *)
@@ -378,6 +400,7 @@ Definition agree (c : case) : bool :=
   | Case clients rounds obs => agree_rounds clients rounds obs
   | CMix clients rounds obs ss sos => agree_rounds clients rounds obs && agree_streams ss sos
   | CPar bs keep steps obs => forallb (fun x => x) (zip_with (agree_pstep bs) false steps obs)
+  | CStore keeps ops obs => list_eqb agree_reply (store_run false keeps [] ops) obs
   end.
 
 Definition mismatches (l : list case) : list nat := mism_idx agree l.
@@ -389,6 +412,13 @@ Definition check (c : case) : list nat :=
   | CMix clients rounds obs ss sos =>
       dedup (check_rounds c14_world clients {| h_writes := []; h_failed := [] |} rounds obs ++ check_streams ss sos)
   | CPar bs keep steps obs => dedup (List.concat (zip_with (check_pstep bs) [1] steps obs))
+  | CStore keeps ops obs =>
+      (* clause 12: the reply of the storing handler is not computed from what the requests
+         carried (Get does not return the data of the last Put of that key): the content a
+         handler kept from one request was changed by another *)
+      dedup (List.concat (zip_with (fun s o => if reply_eqb s o then []
+                                               else if not_answered o then [4] else [12])
+                                   [1] (store_spec [] ops) obs))
   end.
 
 Definition violations (l : list case) : list (nat * nat) := viols check l.
